@@ -488,6 +488,28 @@ def words(F, rep):
                         rep.ok("C10.word", "%s: copy of a word" % key, None)
                     else:
                         rep.violation("C10.word", key + ":n", "%s copies the value of a word but stores n = %s" % (f.path, expr.canon(nn)), where)
+    # the byte order of the word constructors that take an integer: the bit encoding of 2^(2^n) is most significant bit first,
+    # so a multi-byte integer goes in big-endian (as from_byte_array / u256 / u512 take their bytes, in order)
+    n_be = 0
+    for k in (16, 32, 64, 128):
+        f = F.fn(VALUE + "u%d" % k)
+        if f is None:
+            continue
+        T = Terms(f)
+        for b in f.rpo():
+            for st in f.blocks[b]["s"]:
+                if st[0] == "=" and st[2].get("k") == "agg" and st[2].get("adt") == "simplicity::value::Value":
+                    d = dict(zip(st[2].get("fields") or [], [T.operand(o) for o in st[2]["ops"]]))
+                    from facts import calls_in as _ci
+                    conv = {c[2] for c in _ci(d.get("inner")) if c[2] in ("to_be_bytes", "to_le_bytes", "to_ne_bytes")}
+                    if not conv:
+                        continue
+                    n_be += 1
+                    if conv == {"to_be_bytes"}:
+                        rep.ok("C10.word", "Value::u%d stores its bytes big-endian" % k, None)
+                    else:
+                        rep.violation("C10.word", "Value::u%d:byteorder" % k, "Value::u%d fills its buffer with %s: the value's bits are then not the integer's "
+                                      "bits most significant first, unlike every other word constructor and decoder" % (k, sorted(conv)), f.where())
     rep.count("word_literals_judged", n)
     rep.floor("C10.word", n, 10)
 
@@ -663,6 +685,34 @@ def rebrand(F, rep):
                                   "%s builds a %s around the buffer of `%s` but labels it with the type `%s`, which is not derived from `%s.ty`"
                                   % (f.path, st[2]["adt"].rsplit("::", 1)[-1], _brief(base), _brief(d["ty"]), _brief(base)),
                                   "%s:%s" % (f.file, st[3] if len(st) > 3 else f.line))
+    # the (buffer, bit offset) pairs the private concatenation helper hands back: a reused buffer keeps its own offset
+    n_pairs = 0
+    for f in sorted(F.fns.values(), key=lambda x: x.path):     # each function on its own: no infeasible spliced branches
+        if not f.path.startswith("simplicity::value::"):
+            continue
+        T = None
+        for b in f.rpo():
+            for st in f.blocks[b]["s"]:
+                if not (st[0] == "=" and st[2].get("k") == "agg" and st[2].get("agg") == "tuple" and len(st[2]["ops"]) == 2):
+                    continue
+                lt = f.locals[st[1][0]] if not st[1][1] else ""
+                lt = lt if isinstance(lt, str) else lt.get("ty", "")
+                if "Arc<[u8]>" not in lt or "usize" not in lt:
+                    continue
+                T = T or Terms(f)
+                buf, off = _peel(T.operand(st[2]["ops"][0])), T.operand(st[2]["ops"][1])
+                if not (isinstance(buf, tuple) and buf and buf[0] == "field" and buf[2] == "0" and isinstance(buf[1], tuple) and buf[1][0] == "field"):
+                    continue     # a freshly built buffer
+                n_pairs += 1
+                want = ("field", buf[1], "1")
+                key = "%s: reused buffer %s" % (fm.short(f.path), _brief(buf))
+                if _peel(off) == want:
+                    rep.ok("C10.rebrand", key + " keeps its bit offset", None)
+                else:
+                    rep.violation("C10.rebrand", "%s:offset:%s" % (fm.short(f.path), _brief(buf)), "%s hands back the buffer `%s` with bit offset `%s`; the value it "
+                                  "belongs to starts at `%s` in that buffer (a word narrower than a byte, a sum or a sub-value view does not start at bit 0)"
+                                  % (f.path, _brief(buf), _brief(off), _brief(want)), "%s:%s" % (f.file, st[3] if len(st) > 3 else f.line))
+    rep.count("reused_buffer_offset_pairs", n_pairs)
     rep.count("buffer_reusing_value_literals", n)
     rep.floor("C10.rebrand", n, 7)
 
